@@ -42,14 +42,13 @@ func parseTagAndLength(bytes []byte) (r tagAndLen, off int, e error) {
 			return r, off, e
 		}
 		off++
+		// the length is an unsigned number (X.690 8.1.3.5)
 		var val int64
-		val, e = parseInt64(bytes[off : off+len])
-		if e != nil {
-			return r, off, e
+		for _, b := range bytes[off : off+len] {
+			val = val<<8 | int64(b)
 		}
-		// fmt.Println("bytes[off : off+len]", bytes[off : off+len], "val", val)
 
-		r.len = int64(val)
+		r.len = val
 		off += len
 	}
 
@@ -68,6 +67,10 @@ func parseInt64(bytes []byte) (r int64, e error) {
 		return r, e
 	}
 
+	// two's complement (X.690 8.3): sign-extend from the first octet
+	if len(bytes) > 0 && bytes[0]&0x80 != 0 {
+		r = -1
+	}
 	for _, b := range bytes {
 		r <<= 8
 		r |= int64(b)
